@@ -31,7 +31,8 @@ type EvalCtx struct {
 }
 
 type readRec struct {
-	arr, ref, off, idx string
+	arrs          []string // one heap array per leaf of the element type
+	ref, off, idx string
 }
 
 type evalErr struct{ msg string }
@@ -207,10 +208,10 @@ func (e *EvalCtx) eval(n *XNode) Val {
 			seen := map[string]bool{}
 			for _, r := range reads {
 				shift, ok := linearShift(r.idx, q)
-				if !ok || strings.Contains(r.ref, "q_") || strings.Contains(r.off, "q_") || strings.Contains(r.arr, "q_") {
+				if !ok || strings.Contains(r.ref, "q_") || strings.Contains(r.off, "q_") || strings.Contains(strings.Join(r.arrs, " "), "q_") {
 					continue
 				}
-				key := r.arr + "|" + r.ref + "|" + r.off + "|" + shift
+				key := strings.Join(r.arrs, ",") + "|" + r.ref + "|" + r.off + "|" + shift
 				if seen[key] {
 					continue
 				}
@@ -218,7 +219,17 @@ func (e *EvalCtx) eval(n *XNode) Val {
 				// a = off + shift + k   =>   k = a - (off + shift)
 				sub := "(- q_abs " + plus(r.off, shift) + ")"
 				nb := replaceSym(body, q, sub)
-				variants = append(variants, fmt.Sprintf("(%s ((q_abs Int)) (! %s :pattern ((select (select %s %s) q_abs))))", n.Op, nb, r.arr, r.ref))
+				var pats []string
+				for _, a := range r.arrs {
+					// only arrays the body really reads can serve as triggers
+					if strings.Contains(nb, "(select "+a+" ") {
+						pats = append(pats, fmt.Sprintf(":pattern ((select (select %s %s) q_abs))", a, r.ref))
+					}
+				}
+				if len(pats) == 0 {
+					continue
+				}
+				variants = append(variants, fmt.Sprintf("(%s ((q_abs Int)) (! %s %s))", n.Op, nb, strings.Join(pats, " ")))
 			}
 			if n.Op == "exists" {
 				return S{or(variants...), boolT}
@@ -538,9 +549,18 @@ func (e *EvalCtx) index(x Val, i S) Val {
 	}
 	switch t := xs.Ty.Underlying().(type) {
 	case *types.Slice:
-		if len(e.bound) > 0 && sortOfType(t.Elem()) != "" {
-			arr := e.heap("e:"+canonKey(t.Elem()), arrSort("Int", arrSort("Int", sortOfType(t.Elem()))))
-			e.reads = append(e.reads, readRec{arr, sliceField("s.ref", xs.T), sliceField("s.off", xs.T), i.T})
+		if len(e.bound) > 0 {
+			var ls []leaf
+			leavesOf(t.Elem(), "", &ls)
+			var arrs []string
+			for _, l := range ls {
+				if srt := sortOfType(l.Ty); srt != "" {
+					arrs = append(arrs, e.heap(joinKey("e:"+canonKey(t.Elem()), l.Path), arrSort("Int", arrSort("Int", srt))))
+				}
+			}
+			if len(arrs) > 0 {
+				e.reads = append(e.reads, readRec{arrs, sliceField("s.ref", xs.T), sliceField("s.off", xs.T), i.T})
+			}
 		}
 		return e.loadVia(e.heap, Ptr{Ref: sliceField("s.ref", xs.T), Key: "e:" + canonKey(t.Elem()), Idx: plus(sliceField("s.off", xs.T), i.T), Elem: t.Elem()})
 	case *types.Basic:
